@@ -50,7 +50,7 @@ def gen_case(rng, i, nprocs, big=False, nops=None):
     p.close()
     p.emit("*", "barrier")
     p.emit(0, "snapshot", path="s:@OUT@/c01.nc", tag="final")
-    p.emit("*", "balance")
+    p.emit("*", "balance", final=1)
     c = Case("c01_%05d" % i, nprocs, p.s.lines, meta={"expect": p.expect, "fm": p.fm, "feat": p.feat, "nel": p.nelems_checked})
     return c
 
